@@ -11,3 +11,4 @@ for prop in "$@"; do
   echo "MUTANT $LABEL check $prop rc=$rc : $(grep -c '^VIOLATION' /tmp/mev_${LABEL}_$prop.log) violations; $(grep -m1 -A1 '^VIOLATION' /tmp/mev_${LABEL}_$prop.log | tail -1 | cut -c1-260)"
 done
 git -C /repo worktree remove --force $WT
+rm -rf "$HERE/.work/other-tree/$(echo $WT | sed 's#^/##; s#/#_#g')"
